@@ -55,7 +55,7 @@ QuickChoices == {<<1, 1, 1, 1, 2>>, <<2, 2, 2, 2, 1>>, <<3, 3, 1, 2, 2>>}
 MediumChoices == QuickChoices \cup {<<1, 2, 3, 2, 2>>, <<2, 1, 2, 3, 1>>, <<3, 1, 1, 1, 1>>, <<1, 3, 2, 1, 1>>, <<2, 3, 3, 1, 2>>, <<3, 2, 2, 3, 2>>}
 AllChoices == (1..3) \X (1..3) \X (1..3) \X (1..3) \X (1..2)
 InitPoly == /\ \E b \in {<<0, 4, 8>>, <<0, 2, 8>>} : \E ch \in Choices : \E tr \in {<<3, 3>>, <<2, 4>>} :
-                 /\ cfg = [b |-> b, tref |-> tr, kappa |-> <<2, 7>>, gas |-> <<3, 2>>, omega |-> <<1, 2>>, ch |-> ch]
+                 /\ cfg = [b |-> b, tref |-> tr, kappa |-> <<2, 7>>, gas |-> <<3, 2>>, gasv |-> <<5, 2>>, omega |-> <<1, 2>>, ch |-> ch]
             /\ pc = "H" /\ H = <<>> /\ Hs = <<>> /\ Hasfound = <<>> /\ G = <<>> /\ diag = <<>> /\ tend = <<>>
 
 Psi(k) == PsiMenu[cfg.ch[1]][k]
@@ -149,11 +149,20 @@ Temperature ==
   /\ tend' = [vorticity |-> tend.vorticity, divergence |-> tend.divergence,
               temperature |-> [k \in 1..K |-> TempTotal(TrefR, TpP, H, k)]]
   /\ pc' = "rest" /\ UNCHANGED <<cfg, H, Hs, Hasfound, G, diag>>
+(* moist momentum equations: the pressure-gradient and geopotential terms use the virtual temperature
+   Tv = T (1 + eps q), eps = Rv / R - 1, with the tracer q as specific humidity; everything stays
+   polynomial.  (The moist temperature equation divides by 1 + (cpv/cp - 1) q and is not.) *)
+Eps == RSub(RDiv(cfg.gasv, cfg.gas), One)
+TvPrime == [k \in 1..K |-> PAdd(Tp(k), PScale(Eps, PMul(Q(k), PAdd(PConst(T(k)), Tp(k)))))]
+MoistVorticity(k) == LET va == VecAdv(diag.wf, CurlFlux)
+                     IN  PSub(PSub(PNeg(DivFlux(Psi(k), Chi(k), diag.absvor[k])), va[k]), PScale(Rgas, Jac(TvPrime[k], S)))
 Rest == /\ pc = "rest"
         /\ tend' = [vorticity |-> tend.vorticity, divergence |-> tend.divergence, temperature |-> tend.temperature,
                     lnps |-> PNeg(PSumTo([k \in 1..K |-> PScale(DSig(k), PAdd(diag.g[k], diag.delta[k]))], K)),
                     tracer |-> LET vq == VAdvP(diag.wf, [k \in 1..K |-> Q(k)])
-                               IN  [k \in 1..K |-> PAdd(PNeg(Advect(Psi(k), Chi(k), Q(k))), vq[k])]]
+                               IN  [k \in 1..K |-> PAdd(PNeg(Advect(Psi(k), Chi(k), Q(k))), vq[k])],
+                    moist_vorticity |-> [k \in 1..K |-> MoistVorticity(k)],
+                    moist_divergence |-> [k \in 1..K |-> DivTotal(TrefR, TvPrime, k)]]
         /\ pc' = "finished" /\ UNCHANGED <<cfg, H, Hs, Hasfound, G, diag>>
 NextPoly == \/ (Next /\ UNCHANGED <<diag, tend>>)
             \/ Diagnose \/ Vorticity \/ Divergence \/ Temperature \/ Rest
@@ -173,11 +182,14 @@ Mean(p) == MeanOver(p, DOMAIN p)
 ZeroMeanTendencies == Finished => \A k \in 1..K :
    /\ Mean(tend.vorticity[k]) = Zero
    /\ \A a \in 0..K : Mean(tend.divergence[k][a]) = Zero
+   /\ Mean(tend.moist_vorticity[k]) = Zero
+   /\ \A a \in 0..K : Mean(tend.moist_divergence[k][a]) = Zero
 (* mass: d(ps)/dt integrates the divergence of the mass flux; ps = exp(s), so
    mean( exp(s) ds/dt ) = 0 cannot be stated polynomially; the discrete column statement is
    ds/dt = - sum (g + delta) dsigma, checked against the definition of sigma-dot at the surface *)
 SurfaceSigmaDot == Finished =>
    LET F == CumP([k \in 1..K |-> PAdd(diag.g[k], diag.delta[k])]) IN tend.lnps = PNeg(F[K])
+(* a dry atmosphere (q = 0) makes the moist momentum equations the dry ones *)
 (* a horizontally uniform tracer is not advected horizontally; uniform in the vertical too: no tendency *)
 RestingIsothermal ==
    (Finished /\ \A k \in 1..K : Psi(k) = PZero /\ Chi(k) = PZero /\ Tp(k) = PZero) /\ S = PZero /\ OroP = PZero =>
@@ -203,10 +215,11 @@ SplitFree == Finished =>
 
 AJson(x) == [a \in 0..K |-> PJson(x[a])]
 ExportPoly == Finished => PrintT(<<"CASE", ToJson([
-    b |-> cfg.b, den |-> Den, tref |-> cfg.tref, kappa |-> cfg.kappa, gas |-> cfg.gas, omega |-> cfg.omega, ch |-> cfg.ch,
+    b |-> cfg.b, den |-> Den, tref |-> cfg.tref, kappa |-> cfg.kappa, gas |-> cfg.gas, gasv |-> cfg.gasv, omega |-> cfg.omega, ch |-> cfg.ch,
     s |-> PJson(S), oro |-> PJson(OroP),
     levels |-> [k \in 1..K |-> [zeta |-> PJson(diag.zeta[k]), delta |-> PJson(diag.delta[k]), tp |-> PJson(Tp(k)), q |-> PJson(Q(k)),
                                 vorticity |-> PJson(tend.vorticity[k]), divergence |-> AJson(tend.divergence[k]),
-                                temperature |-> AJson(tend.temperature[k]), tracer |-> PJson(tend.tracer[k])]],
+                                temperature |-> AJson(tend.temperature[k]), tracer |-> PJson(tend.tracer[k]),
+                                moist_vorticity |-> PJson(tend.moist_vorticity[k]), moist_divergence |-> AJson(tend.moist_divergence[k])]],
     lnps |-> PJson(tend.lnps) ])>>)
 =============================================================================
